@@ -124,7 +124,7 @@ TEXTS = {
                 "the definitional tail for every population size. PARTIAL: the crate's f64 evaluation through ln_gamma / ln / exp (libm) is not "
                 "modelled bit for bit; spec_C06 decides per input: exactly one record per annotation linked to a sample term, with k, p within "
                 "relative 1e-9 of the exact tail P[X >= k] for (N, K, n) recomputed from the crate's own observation, p in [0,1] and antitone "
-                "in k on the crate's values, fold enrichment bit-exact (Flocq binary64); counts, wiring and fold are diffed against the crate.",
+                "in k on the crate's values, fold enrichment bit-exact (Flocq binary64); counts, wiring and fold are diffed against the crate. TOTALITY (C06_enrichment_returns): the enrichment returns when annotation ids resolve, the sample is not larger than the background and no annotation is linked more often in the sample than in the background (none of the expect() calls panics).",
         "design_ref": "DESIGN.md §4 C06, §9",
         "note": NOTE_COMMON + "Axioms: the four standard-library axioms behind Coq Reals (via Flocq's binary64 definitions used in the run file).",
         "technique": TECH,
